@@ -65,7 +65,7 @@ def run(ctx):
         ctx.finish("proof", cov, assumptions)
 
     # ------------------------------------------------------------------ Go grid
-    nrand = 500 if ctx.thorough else 200
+    nrand = 400 if ctx.thorough else 60
     grids = {}
     nets_in = []
     for n in ub.NETS:
@@ -142,6 +142,29 @@ def run(ctx):
     ctx.log("go grid: %d pairs, %d triples, %d additivity failures; variant %s" % (
         stats["go_pairs"], stats["go_triples"], stats["additivity_failures_on_go"], variant))
 
+    # ------------------------------------------------------------------ Apalache obligations
+    jobs = []
+    must = {}
+    refute = []
+    nets = list(K)
+    for net in nets:
+        k = K[net]
+        fixed = variant[net] == "fixed"
+        files = {"Unbind_K.tla": ub.k_module(net, k, fixed)}
+        obs = ub.OBLIGATIONS_COMMON + ["ObSaturation"] + (ub.OBLIGATIONS_FIXED if fixed else ub.OBLIGATIONS_CODED)
+        jobs.append((net, files, obs))
+        must[net] = obs
+    # the code as it is: the unrestricted governance obligation is expected to be refuted; the counterexample is
+    # executed on the Go functions (thorough: every network; quick: one network chosen by the seed)
+    coded = [n for n in nets if variant[n] == "coded"]
+    if coded:
+        for net in (coded if ctx.thorough else [coded[ctx.seed % len(coded)]]):
+            jobs.append((net + ":asCoded", {"Unbind_K.tla": ub.k_module(net, K[net], False)}, ["ObGovAdditive"]))
+            refute.append(net + ":asCoded")
+    if ub.os.environ.get("VERIF_C09_SKIP_APALACHE"):  # development only: can never pass
+        ctx.infra("apalache skipped")
+        jobs = []
+    prover = ub.Prover(ctx, jobs, workers=max(1, min(len(jobs), max(2, ub.vf.NCPU // 3))))  # runs in the background
     # ------------------------------------------------------------------ TLC tabulation and comparison
     tlc_rows = 0
     for net, k in K.items():
@@ -203,26 +226,9 @@ def run(ctx):
     ctx.log("TLC: %d rows; %d pairs compared with Go, %d pairs with offsets >= 2^31, %d balance products" % (
         tlc_rows, stats["tlc_pairs_compared"], stats["big_pairs_compared"], stats["mul_compared"]))
 
-    # ------------------------------------------------------------------ Apalache obligations
-    jobs = []
-    must = {}
-    refute = []
-    nets = list(K)
-    for net in nets:
-        k = K[net]
-        fixed = variant[net] == "fixed"
-        files = {"Unbind_K.tla": ub.k_module(net, k, fixed)}
-        obs = ub.OBLIGATIONS_COMMON + ["ObSaturation"] + (ub.OBLIGATIONS_FIXED if fixed else ub.OBLIGATIONS_CODED)
-        jobs.append((net, files, obs))
-        must[net] = obs
-    # the code as it is: the unrestricted governance obligation is expected to be refuted; the counterexample is
-    # executed on the Go functions (thorough: every network; quick: one network chosen by the seed)
-    coded = [n for n in nets if variant[n] == "coded"]
-    if coded:
-        for net in (coded if ctx.thorough else [coded[ctx.seed % len(coded)]]):
-            jobs.append((net + ":asCoded", {"Unbind_K.tla": ub.k_module(net, K[net], False)}, ["ObGovAdditive"]))
-            refute.append(net + ":asCoded")
-    res = ub.prove(ctx, jobs, workers=min(len(jobs), max(2, ub.vf.NCPU // 3)))
+    if ub.os.environ.get("VERIF_C09_SKIP_APALACHE"):
+        ctx.finish("proof", cov, assumptions)
+    res = prover.wait()
     probes = []
     obligations = discharged = 0
     oblist = []
